@@ -105,9 +105,17 @@ impl Object for Font {
 
         // BaseFont is required for all FontTypes except Type3
         dict.expect("Font", "Type", "Font", true)?;
-        let base_font_primitive = dict.get("BaseFont");
+        // (a reference to a missing object is a reference to null: the entry is absent)
+        let base_font_primitive = match dict.get("BaseFont") {
+            Some(&Primitive::Reference(r)) => match resolve.resolve(r) {
+                Ok(p) => Some(p),
+                Err(e) if e.is_missing_object(r.id) => None,
+                Err(e) => return Err(e)
+            },
+            p => p.cloned()
+        };
         let base_font = match (base_font_primitive, subtype) {
-            (Some(name), _) => Some(t!(t!(name.clone().resolve(resolve)).into_name(), name)),
+            (Some(name), _) => Some(t!(name.into_name())),
             (None, FontType::Type3) => None,
             (_, _) => return Err(PdfError::MissingEntry {
                 typ: "Font",
